@@ -198,7 +198,8 @@ CLAIMS = {
          "C02's verdict on the emulator to the OPCODE form of the generator.",
     design_ref="DESIGN.md section 6 C04",
     note="Float opcodes and float/double parameters in generated C are checked by C18; index-map loads in generated C "
-         "are not covered; the C compiler is the installed gcc (-O2; -O0 too in the thorough tier).",
+         "run on guarded arrays through C03's harness and Trace_Footprint; the C compiler is the installed gcc (-O2; "
+         "-O0 too in the thorough tier).",
     technique="TLA+ executable reference semantics (OrcOps/OrcProg) evaluated by TLC on traces of gcc-compiled "
               "generated C; byte comparison of the regenerated emulator"),
  "C18": dict(
